@@ -37,7 +37,7 @@ PROPS = {
     },
     "C05": {
         "thm_modules": ["Rq.Thm.C05"],
-        "engines": [("partition", "release"), ("object", "release"), ("object", "debug")],
+        "engines": [("partition", "release"), ("object", "release"), ("object", "debug"), ("decblk", "release")],
         "modelled": ["Vec/slice plumbing (extend_from_slice, chunks, copy_from_slice) as list take/drop/append", "the decoder's write pattern as a list of (position, byte) writes"],
         "assumptions": ["object-level inversion through the real decoder is part of the correspondence run (all source packets, shuffled) and of C01's theorem"],
     },
@@ -104,7 +104,7 @@ PROPS.update({
     },
     "C06": {
         "thm_modules": ["Rq.Thm.C06", "Rq.Thm.C06b", "Rq.Thm.C06c", "Rq.Thm.Tables"],
-        "engines": [("inter", "release"), ("plan", "release"), ("plan", "debug"), ("tables", "release"), ("solver", "release")],
+        "engines": [("inter", "release"), ("plan", "release"), ("plan", "debug"), ("tables", "release"), ("solver", "release"), ("object", "release")],
         "modelled": [SOLVER],
         "assumptions": [INVERT, "plan certificates (identity-block replay) are evaluated by the compiled model driver for K <= 130 (quick) / 400 (thorough): compiled Lean evaluation, not a kernel proof; all 477 K' are covered by checking Rust's intermediate symbols against every row of the Spec system"],
     },
